@@ -122,7 +122,7 @@ class P:
             t = self.ty()
             self.eat(">")
             return ("option", t)
-        if v in ("u64", "u128", "usize", "bool", "u16", "u32", "u8"):
+        if v in ("u64", "u128", "usize", "bool", "u16", "u32", "u8", "i8"):
             return v
         raise Unsupported("type " + v)
 
@@ -250,6 +250,11 @@ class P:
             self.eat(")")
             return ("ptuple", ps)
         k, v = self.next()
+        if v == "-" and self.peek()[0] == "num":
+            n = parse_num(self.next()[1])[0]
+            if n != 1:
+                raise Unsupported("negative pattern other than -1")
+            return ("plit", "(Zneg xH)")
         if k == "num":
             return ("plit", str(parse_num(v)[0]))
         if v in ("true", "false", "None"):
@@ -412,6 +417,10 @@ class P:
                 self.accept(",")
             self.eat("}")
             return ("match", scrut, arms)
+        if v == "return":
+            self.next()
+            e = None if (self.at(";") or self.at(",") or self.at("}")) else self.expr()
+            return ("return", e)
         if v == "while":
             self.next()
             c = self.expr()
@@ -710,6 +719,10 @@ class Tr:
         if t1 != t2:
             raise Unsupported("operand types %s %s %s" % (t1, op, t2))
         bs = b1 + b2
+        if t1 == "i8b":
+            if op != "-":
+                raise Unsupported("i8 arithmetic other than the difference of two bools")
+            return bs, "(%s - %s)" % (paren(a1), paren(a2)), "i8"
         if t1 == "uint":
             if op in ("==", "!="):          # #[derive(PartialEq)] on the limb array
                 r = "(list_eqb Z.eqb %s %s)" % (paren(a1), paren(a2))
@@ -866,6 +879,17 @@ class Tr:
         if name == "Wrapping":
             b, a, t = self.ex(f, args[0], env, "u64")
             return b, a, "W64"
+        if name in ("core::cmp::min", "cmp::min") and len(args) == 2:
+            b1, a1, t1 = self.ex(f, args[0], env, "usize")
+            b2, a2, t2 = self.ex(f, args[1], env, t1)
+            return b1 + b2, "(Z.min %s %s)" % (paren(a1), paren(a2)), t1
+        if name == "i8::from" and len(args) == 1:
+            b, a, t = self.ex(f, args[0], env, "bool")
+            if t != "bool":
+                raise Unsupported("i8::from of a non-bool")
+            return b, "(b2z %s)" % paren(a), "i8b"        # an i8 known to be 0 or 1
+        if name in ("core::hint::unreachable_unchecked", "hint::unreachable_unchecked", "unreachable_unchecked"):
+            raise Unsupported("unreachable_unchecked as a value")
         if name in ("u128::from", "Self::from", "u64::from", "usize::from"):
             to = name.split("::")[0]
             if to == "Self":
@@ -1038,6 +1062,9 @@ class Tr:
             f.impure = True
             v = f.fresh()
             return br + ["do %s <- (match %s with Some x_ => Val x_ | None => Panic end) ;" % (v, ar)], v, tr_[1]
+        if m == "cmp" and tr_ in ("usize", "u64", "u128") and len(args) == 1:
+            b, a, t = self.ex(f, args[0], env, tr_)
+            return br + b, "(Z.compare %s %s)" % (paren(ar), paren(a)), "ordering"
         if m == "len" and isinstance(tr_, tuple) and tr_[0] in ("slice", "arr"):
             return br, "(lenZ %s)" % paren(ar), "usize"
         if m in ("wrapping_add", "wrapping_sub", "wrapping_mul"):
@@ -1138,6 +1165,15 @@ class Tr:
                 and e[1][0] == "var" and len(e[3]) == 1:
             return e[1][1], e[3][0]
         return None
+
+    def has_return(self, x):
+        if isinstance(x, tuple):
+            if x and x[0] == "return":
+                return True
+            return any(self.has_return(y) for y in x)
+        if isinstance(x, list):
+            return any(self.has_return(y) for y in x)
+        return False
 
     def desugar_foreach(self, e):
         """`for x in xs { .. *x .. }` over a slice `xs` (also `xs.iter_mut()`, `&mut xs`):
@@ -1286,10 +1322,11 @@ class Tr:
             if s[1] is None:                    # `return;` in a unit function: the &mut outputs as they are
                 return f.unit_return(env)
             b, a, t = self.ex(f, s[1], env, retty)
+            wrapl, wrapr = ("(Ret ", ")") if getattr(f, "retloops", 0) else ("", "")
             if f.mutouts:
                 # (result, new values of the &mut parameters): a callee that updated them has rebound their names
-                return " ".join(b) + " Val (%s)" % ", ".join([a] + [env[m][0] for m in f.mutouts])
-            return " ".join(b) + " Val %s" % a
+                return " ".join(b) + " Val %s(%s)%s" % (wrapl, ", ".join([a] + [env[m][0] for m in f.mutouts]), wrapr)
+            return " ".join(b) + " Val %s%s%s" % (wrapl, paren(a) if wrapl else a, wrapr)
         if k == "assign":
             tgt = s[1]
             if tgt[0] == "un":
@@ -1443,6 +1480,8 @@ class Tr:
                 # `for i in LO..HI { body }`: the body runs for i = LO .. HI-1 on the tuple of the
                 # variables it assigns; LO and HI are evaluated once, before the loop
                 iv, body = e[1], e[4]
+                if body[2] is not None and body[2][0] == "match":
+                    body = ("block", body[1] + [("expr", body[2])], None)   # a unit-valued match ends the body
                 if body[2] is not None:
                     raise Unsupported("for body with a value")
                 vs = [v for v in self.assigned(body) if v != iv]
@@ -1455,34 +1494,70 @@ class Tr:
                 bh, ah, _ = self.ex(f, e[3], env, "usize") if e[3] is not None else ([], None, None)
                 tup = lambda en: ("(" + ", ".join(en[v][0] for v in vs) + ")") if len(vs) != 1 else en[vs[0]][0]
                 pat = ("(" + ", ".join(vs) + ")") if len(vs) != 1 else vs[0]
-                if not vs:
+                if not vs and not self.has_return(body):
                     raise Unsupported("for loop without effect")
+                if not vs:
+                    tup = lambda en: "tt"
+                    pat = "tt"
                 env2 = dict(env)
                 env2[iv] = (iv, "usize")
                 for v in vs:
                     env2[v] = (v, env[v][1])
                 if not hasattr(f, "loopfins"):
                     f.loopfins = []
-                f.loopfins.append(lambda en: "Val " + tup(en))
+                retmode = self.has_return(body)
+                if retmode and getattr(f, "retloops", 0):
+                    raise Unsupported("return inside nested loops")
+                cont = (lambda en: "Val (Cont " + tup(en) + ")") if retmode else (lambda en: "Val " + tup(en))
+                f.loopfins.append(cont)
+                if retmode:
+                    f.retloops = getattr(f, "retloops", 0) + 1
                 try:
-                    bcode = self.stmts(f, body[1], 0, env2, lambda en: "Val " + tup(en), retty)
+                    bcode = self.stmts(f, body[1], 0, env2, cont, retty)
                 finally:
                     f.loopfins.pop()
+                    if retmode:
+                        f.retloops -= 1
                 f.impure = True
                 w, st = f.fresh(), f.fresh()
                 cur = tup(env)
                 env = dict(env)
                 for v in vs:
                     env[v] = (v, env[v][1])
+                sfx = "_ret" if retmode else ""
+                if retmode:
+                    after = "match %s with Ret r_ => Val r_ | Cont %s =>\n  %s end" % (w, pat if pat != "tt" else "_", rest(env))
+                else:
+                    after = "let '%s := %s in\n  %s" % (pat, w, rest(env))
+                lp = ("let '%s := %s in " % (pat, st)) if pat != "tt" else ""
                 if e[0] == "fordownrange":  # `for i in (LO..HI).rev()`: i = HI-1 down to LO
                     kv = "k_" + iv
-                    return "%s do %s <- for_down (Z.to_nat (%s - %s)) %s (fun %s %s => let %s := %s + %s in let '%s := %s in %s) ;\n  let '%s := %s in\n  %s" % (
-                        " ".join(bl + bh), w, paren(ah), paren(al), cur, kv, st, iv, paren(al), kv, pat, st, bcode, pat, w, rest(env))
+                    return "%s do %s <- for_down%s (Z.to_nat (%s - %s)) %s (fun %s %s => let %s := %s + %s in %s%s) ;\n  %s" % (
+                        " ".join(bl + bh), w, sfx, paren(ah), paren(al), cur, kv, st, iv, paren(al), kv, lp, bcode, after)
                 if e[0] == "fordown":       # e[2] = trip count; i runs from count-1 down to 0
-                    return "%s do %s <- for_down (Z.to_nat %s) %s (fun %s %s => let '%s := %s in %s) ;\n  let '%s := %s in\n  %s" % (
-                        " ".join(bl), w, paren(al), cur, iv, st, pat, st, bcode, pat, w, rest(env))
-                return "%s do %s <- for_range %s %s %s (fun %s %s => let '%s := %s in %s) ;\n  let '%s := %s in\n  %s" % (
-                    " ".join(bl + bh), w, paren(al), paren(ah), cur, iv, st, pat, st, bcode, pat, w, rest(env))
+                    return "%s do %s <- for_down%s (Z.to_nat %s) %s (fun %s %s => %s%s) ;\n  %s" % (
+                        " ".join(bl), w, sfx, paren(al), cur, iv, st, lp, bcode, after)
+                return "%s do %s <- for_range%s %s %s %s (fun %s %s => %s%s) ;\n  %s" % (
+                    " ".join(bl + bh), w, sfx, paren(al), paren(ah), cur, iv, st, lp, bcode, after)
+            if e[0] == "match":
+                bs, a, t = self.ex(f, e[1], env)
+                arms = []
+                for pat, body in e[2]:
+                    env2 = dict(env)
+                    ps = self.mpat(pat, t, env2)
+                    bb = self.unblock(body)
+                    if isinstance(bb, tuple) and bb and bb[0] == "call" and bb[1][0] == "path" \
+                            and bb[1][1][-1] == "unreachable_unchecked":
+                        code = "Panic"              # undefined behaviour in Rust: no theorem may rely on it
+                        f.impure = True
+                    elif body[0] == "block" and body[2] is None:
+                        code = self.stmts(f, body[1], 0, env2, lambda en: rest(en), retty)
+                    elif body[0] == "block" and not body[1] and body[2][0] == "return":
+                        code = self.stmts(f, [body[2]], 0, env2, lambda en: "Panic", retty)
+                    else:
+                        raise Unsupported("match statement arm")
+                    arms.append("| %s => %s" % (ps, code))
+                return "%s match %s with %s end" % (" ".join(bs), a, " ".join(arms))
             if e[0] == "mcall" and e[2] in ("copy_from_slice", "copy_within", "fill"):
                 recv = e[1]
                 f.impure = True
@@ -1637,6 +1712,8 @@ TARGETS = [
     ("src/algorithms/mul.rs", None, "mul_nx1", "mul_nx1", "g_mul_nx1", None),
     ("src/algorithms/mul.rs", None, "addmul_nx1", "addmul_nx1", "g_addmul_nx1", None),
     ("src/algorithms/mul.rs", None, "submul_nx1", "submul_nx1", "g_submul_nx1", None),
+    ("src/algorithms/mul.rs", None, "add_nx1", "add_nx1", "g_add_nx1", None),
+    ("src/algorithms/mod.rs", "pub fn cmp", "cmp", "slice_cmp", "g_slice_cmp", None),
     ("src/algorithms/shift.rs", None, "shift_left_small", "shift_left_small", "g_shift_left_small", None),
     ("src/algorithms/shift.rs", None, "shift_right_small", "shift_right_small", "g_shift_right_small", None),
     ("src/algorithms/div/small.rs", None, "div_nx1_normalized", "div_nx1_normalized", "g_div_nx1_normalized", None),
